@@ -1,7 +1,31 @@
 (* Glue used by the generated C11 case files only: the accessor model
    instantiated with the tables regenerated from the running code. *)
 From V Require Export Model.Accessors Model.PduRun Gen.AccessorTables.
+From V Require Model.Gsm7.
 Open Scope N_scope.
+
+(* the GSM 7-bit decoder of Model/Gsm7.v (builder gsm7; C08) as the decoder Parse selects for
+   the data_codings whose Encoding() is gsm7bit.Packed; [utf8] turns the decoded runes into the text's octets *)
+Definition gsm7_decoder (utf8 : list N -> bytes) : decoder :=
+  fun b => match Gsm7.decode b with Ok rs => Ok (utf8 rs) | Err e => Err e | Panic => Panic end.
+Definition is_gsm7_dc (c : N) : bool := existsb (N.eqb c) data_coding_gsm7.
+Definition encoding_gsm7 (c : N) : option decoder := if is_gsm7_dc c then Some (gsm7_decoder (fun rs => rs)) else None.
+(* case: Parse observed on a message whose data_coding selects the GSM 7-bit decoder: returned (text or error) iff the model does *)
+Definition chk_parse_gsm7 (dc : N) (msg : bytes) (cls : N) : bool :=
+  is_gsm7_dc dc &&
+  match parse encoding_gsm7 {| sm_dflt := 0; sm_dc := dc; sm_udh := None; sm_msg := msg |} with
+  | Panic => cls =? 2
+  | _ => (cls =? 0) || (cls =? 1)
+  end.
+(* case: getHeader through reflect on a packet of the given shape *)
+Definition shape_of (tag : N) (kinds : list N) : shape :=
+  if tag =? 0 then ShPtrStruct (map kind_of kinds) else if tag =? 1 then ShNilPtr
+  else if tag =? 2 then ShStruct (map kind_of kinds) else ShOther.
+(* on a pointer to a struct (tag 0: what ReadPDU returns) the outcome class is compared exactly; on the other
+   shapes (a caller's mistake, outside C11) only "where the code returns, the model returns": a getHeader that
+   refuses more of them is no C11 matter *)
+Definition chk_get_header (tag : N) (kinds : list N) (cls : N) : bool :=
+  (ocls (get_header_reflect (shape_of tag kinds)) =? cls) || (negb (tag =? 0) && (cls =? 2)).
 
 Fixpoint find_row (rows : list (N * bool)) (c : N) : bool :=
   match rows with [] => false | (k, b) :: r => if k =? c then b else find_row r c end.
@@ -43,7 +67,12 @@ Fixpoint find_exc (ex : list (N * N * N)) (t s : N) : N :=
   | (t', s', c) :: r => if (t =? t') && (s =? s') then c else find_exc r t s
   end.
 Definition all256n : list N := all256.
-(* the implementation's class is 0 for every pair except those listed *)
-Definition chk_pairs (prime : list (N * N)) (exceptions : list (N * N * N)) : bool :=
+(* the implementation's class is 0 for every pair except those listed.  [inprog] is the total of the
+   message the history [prime] leaves in progress (0: none): a segment announcing ANOTHER total
+   "yields a value or an ignored segment" (C11) — ignored, or the message started afresh — so for those
+   pairs only "neither panics" is compared; every other pair exactly *)
+Definition chk_pairs (prime : list (N * N)) (inprog : N) (exceptions : list (N * N * N)) : bool :=
   let pr := map (fun ts => pair_seg 1 (fst ts) (snd ts)) prime in
-  forallb (fun t => forallb (fun s => pair_class pr t s =? find_exc exceptions t s) all256n) all256n.
+  forallb (fun t => forallb (fun s =>
+    let m := pair_class pr t s in let i := find_exc exceptions t s in
+    (m =? i) || (negb (inprog =? 0) && negb (t =? inprog) && (m <? 2) && (i <? 2))) all256n) all256n.
